@@ -15,6 +15,9 @@ func (s *sutA) oracle(w []string, res opResult, roundsBefore int) (string, strin
 	if res.panicked != "" {
 		return "operation on the mirrored pair panicked", res.panicked
 	}
+	if s.A.waits+s.B.waits > 0 {
+		return "a stream handed out by a replica was never released", fmt.Sprintf("%v", w)
+	}
 	afterA, afterB := s.A.store, s.B.store
 	before := map[string]map[int][]byte{"A": res.beforeA, "B": res.beforeB}
 	after := map[string]map[int][]byte{"A": afterA, "B": afterB}
@@ -179,7 +182,7 @@ func (s *sutA) oracle(w []string, res opResult, roundsBefore int) (string, strin
 		}
 	case "put":
 		if !res.isErr {
-			want := valBytes(atoi(w[2]))
+			want := s.u.valBytes(atoi(w[1]), atoi(w[2]))
 			if !bytes.Equal(afterA[atoi(w[1])], want) || !bytes.Equal(afterB[atoi(w[1])], want) {
 				return "successful upload is not present in both replicas", d("A %q B %q", afterA[atoi(w[1])], afterB[atoi(w[1])])
 			}
